@@ -1597,7 +1597,34 @@ var rR11e = RuleRef{Name: "R11e", Doc: "read commands have no write effect: the 
 				}
 			}
 		}
-		c.Add("R11e", fnName(fn), strings.ToUpper(name)+" changes nothing", fn.Pos(), len(bad) == 0, strings.Join(bad, "; "))
+		// ... nor through a helper: the keyspace writes of first-party helpers that are reachable with the constant
+		// boolean arguments the executor passes (streamAt(key, create=false) must not reach the branch that stores)
+		check := c.P.Func("memdb", "MemDb.CheckTTL")
+		for _, b := range fn.Blocks {
+			for _, in := range b.Instrs {
+				ci, ok := in.(*ssa.Call)
+				if !ok {
+					continue
+				}
+				cf := callee(ci)
+				if cf == nil || !firstParty(cf) || pkgRel(cf) != "memdb" || cf == check || cf == setTTL || cf == delTTL || c.Facts.ExecNames[cf] != nil {
+					continue
+				}
+				if c.keyspaceAccess(ci) != nil {
+					continue
+				}
+				consts := map[int]bool{}
+				for i, a := range ci.Call.Args {
+					if k, ok := a.(*ssa.Const); ok && k.Value != nil && isBoolType(k.Type()) {
+						consts[i] = k.Value.ExactString() == "true"
+					}
+				}
+				for _, w := range c.reachableKeyspaceWrites(cf, consts, 0, map[*ssa.Function]bool{}) {
+					bad = append(bad, c.pos(ci.Pos())+": through "+cf.Name()+": "+w)
+				}
+			}
+		}
+		c.Add("R11e", fnName(fn), strings.ToUpper(name)+" changes nothing", fn.Pos(), len(bad) == 0, strings.Join(uniq(bad), "; "))
 	}
 	c.Count("R11e_read_only_executors", n)
 	c.Min("R11e_read_only_executors", 25)
@@ -2298,4 +2325,90 @@ func (c *C) sharedKeyspaceTables(ctor *ssa.Function) string {
 		}
 	}
 	return ""
+}
+
+// reachableKeyspaceWrites: the keyspace writes (db/ttlKeys Set, Delete ...) in fn and its memdb callees that can be
+// reached when the boolean parameters listed in consts have those constant values: branches on such a parameter (or its
+// negation) are followed on the matching side only. CheckTTL's lazy removal is not a write of the command.
+func (c *C) reachableKeyspaceWrites(fn *ssa.Function, consts map[int]bool, depth int, seen map[*ssa.Function]bool) []string {
+	if fn == nil || fn.Blocks == nil || depth > 2 || seen[fn] {
+		return nil
+	}
+	seen[fn] = true
+	defer delete(seen, fn)
+	check := c.P.Func("memdb", "MemDb.CheckTTL")
+	known := func(v ssa.Value) (bool, bool) {
+		neg := false
+		for {
+			u, ok := v.(*ssa.UnOp)
+			if !ok || u.Op != token.NOT {
+				break
+			}
+			v, neg = u.X, !neg
+		}
+		if p, ok := v.(*ssa.Parameter); ok {
+			for i, q := range fn.Params {
+				if q == p {
+					if val, have := consts[i]; have {
+						return val != neg, true
+					}
+				}
+			}
+		}
+		return false, false
+	}
+	var out []string
+	reach := map[*ssa.BasicBlock]bool{}
+	var walk func(b *ssa.BasicBlock)
+	walk = func(b *ssa.BasicBlock) {
+		if reach[b] {
+			return
+		}
+		reach[b] = true
+		if iff, ok := b.Instrs[len(b.Instrs)-1].(*ssa.If); ok {
+			if val, have := known(iff.Cond); have {
+				if val {
+					walk(b.Succs[0])
+				} else {
+					walk(b.Succs[1])
+				}
+				return
+			}
+		}
+		for _, s := range b.Succs {
+			walk(s)
+		}
+	}
+	walk(fn.Blocks[0])
+	for _, b := range fn.Blocks {
+		if !reach[b] {
+			continue
+		}
+		for _, in := range b.Instrs {
+			ci, ok := in.(*ssa.Call)
+			if !ok {
+				continue
+			}
+			if a := c.keyspaceAccess(ci); a != nil {
+				if a.Write {
+					out = append(out, a.Map+"."+a.Method+" at "+c.pos(ci.Pos()))
+				}
+				continue
+			}
+			cf := callee(ci)
+			if cf == nil || !firstParty(cf) || pkgRel(cf) != "memdb" || cf == check || c.Facts.ExecNames[cf] != nil {
+				continue
+			}
+			sub := map[int]bool{}
+			for i, a := range ci.Call.Args {
+				if k, ok := a.(*ssa.Const); ok && k.Value != nil && isBoolType(k.Type()) {
+					sub[i] = k.Value.ExactString() == "true"
+				} else if val, have := known(a); have {
+					sub[i] = val
+				}
+			}
+			out = append(out, c.reachableKeyspaceWrites(cf, sub, depth+1, seen)...)
+		}
+	}
+	return out
 }
